@@ -49,6 +49,9 @@ Spec == Init /\ [][Next]_<<vars1, vars2, sched>>
 \* fingerprint view without the history variable: all interleavings are still explored, without one state per path
 IsoView == <<vars1, vars2>>
 
+\* state constraint of the schedule-emission configs: both tables are << <<a,b>>, <<p,a>> >> once chosen
+FixedTables == (InSetup(pc1) \/ (Len(A1) = 2 /\ A1[1] # A1[2] /\ A1[1][1] = <<"s", <<97>>>>)) /\ (InSetup(pc2) \/ (Len(A2) = 2 /\ A2[1] # A2[2] /\ A2[1][1] = <<"s", <<97>>>>))
+
 T1 == pc1 \in {"done", "error"}
 T2 == pc2 \in {"done", "error"}
 
